@@ -16,7 +16,7 @@ from pyvc import sym
 from pyvc.sym import lift
 from pyvc.oblig import obligation, verify, exhaustive, bounded, Goal, Inapplicable
 from pyvc.interp import PyRaise
-from .common import stable_rng, quick
+from .common import stable_rng, quick, Frame
 
 LEVEL = "proof"
 EXPLANATION = ("Every obligation symbolically executes the real methods of the real classes (constructed through their "
@@ -133,28 +133,32 @@ def ob_general(model):
     return verify(body, replay=rp)
 
 
-@obligation("general/array_distances", params=[{"model": m} for m in ("general", "freespace")],
-            desc="array distances (shape (2,), symbolic entries): element-wise same values as the scalar spec, clamp per element")
-def ob_general_array(model):
+@obligation("general/array_distances", params=[{"model": m, "shape": sh} for m in ("general", "freespace") for sh in ("2", "2x2", "1x2x1")],
+            desc="array distances of shape (2,), (2,2) and (1,2,1) with symbolic entries: same shape back, element-wise the values of the "
+                 "scalar spec, clamp per element (an entry below the minimum distance is clamped alone)")
+def ob_general_array(model, shape="2"):
+    shp = tuple(int(x) for x in shape.split("x"))
+
     def body(c, it):
         o = dict(_models(c, it))[model]
-        d = np.empty(2, dtype=object)
-        d[0], d[1] = c.var("d0", "real"), c.var("d1", "real")
+        d = np.empty(shp, dtype=object)
+        for k, pos in enumerate(np.ndindex(*shp)):
+            d[pos] = c.var("d%d" % k, "real")
+            c.assume(d[pos] > 0)
         c.inputs["d"] = d
-        c.assume((d[0] > 0) & (d[1] > 0))
         it.setattr(o, "handle_small_distances_bool", True)
         n, C = it.getattr(o, "_n"), it.getattr(o, "_C")
         p = _call(it, o, "calc_path_loss_dB", d)
         lin = _call(it, o, "calc_path_loss", d)
-        goals = [Goal("shape", isinstance(p, np.ndarray) and p.shape == (2,) and np.shape(lin) == (2,))]
+        goals = [Goal("shape", isinstance(p, np.ndarray) and p.shape == shp and np.shape(lin) == shp)]
         if goals[0].cond:
-            for i in range(2):
-                spec = 10 * n * lift(d[i]).log10() + C
+            for pos in np.ndindex(*shp):
+                spec = 10 * n * lift(d[pos]).log10() + C
                 spec = sym.ite(spec < 0, 0, spec)
-                goals.append(Goal("element %d dB" % i, lift(p[i]) == spec))
-                goals.append(Goal("element %d linear" % i, lift(lin[i]) == (-(lift(spec)) / 10.0).to_real().pow10()))
+                goals.append(Goal("element %s dB" % (pos,), lift(p[pos]) == spec))
+                goals.append(Goal("element %s linear" % (pos,), lift(lin[pos]) == (-(lift(spec)) / 10.0).to_real().pow10()))
         return goals
-    return verify(body)
+    return verify(body, max_paths=400)
 
 
 @obligation("general/inverse", params=[{"model": m} for m in ("general", "freespace", "3gpp")],
@@ -485,8 +489,13 @@ def ob_native():
             if np.any(np.diff(det) < -1e-9):
                 return {"not monotone": det.tolist(), "d": d.tolist()}
             try:
-                arr = o.calc_path_loss_dB(d.copy(), **kw)
-                lin = o.calc_path_loss(d.copy(), **kw)
+                dd_ = d.copy()
+                fr = Frame(distances=dd_)
+                arr = o.calc_path_loss_dB(dd_, **kw)
+                fr.watch(dB=arr)
+                lin = o.calc_path_loss(dd_, **kw)
+                if fr.changed():
+                    return {"frame": fr.changed(), "kind": kind}
                 if (not (det.min() >= 0)) and not o.handle_small_distances_bool:
                     return {"should have raised": det.tolist()}
                 exp = np.maximum(det, 0) if o.handle_small_distances_bool else det
@@ -494,6 +503,12 @@ def ob_native():
                     return {"array dB": arr.tolist(), "expected": exp.tolist()}
                 if (not (np.abs(lin - 10 ** (-exp / 10)).max() <= 1e-12)) or (not (lin.min() > 0)) or (not (lin.max() <= 1)):
                     return {"linear": lin.tolist(), "dB": exp.tolist()}
+                # the same distances as a 2-D (and 3-D) array: same values, same shape
+                if d.size % 2 == 0 and d.size >= 2:
+                    for shp in ((2, d.size // 2), (d.size // 2, 1, 2)):
+                        arr2 = np.asarray(o.calc_path_loss_dB(d.copy().reshape(shp), **kw))
+                        if arr2.shape != shp or (not (np.abs(arr2.ravel() - exp).max() <= 1e-9)):
+                            return {"array of shape %s" % (shp,): arr2.tolist(), "expected (flattened)": exp.tolist()}
             except RuntimeError:
                 if not ((not (det.min() >= 0)) and not o.handle_small_distances_bool):
                     return {"raised unexpectedly": det.tolist()}
